@@ -58,6 +58,10 @@ class Engine(CoreMixin, ExprMixin, CallMixin, LibMixin, StmtMixin, ReMixin):
                 self.loop_ordinals[id(n)] = k
                 k += 1
         self.n_loops = k
+        self.return_ordinals = {}
+        for n in self.walk_own(self.found.node):
+            if isinstance(n, ast.Return) and id(n) not in self.return_ordinals:
+                self.return_ordinals[id(n)] = len(self.return_ordinals)
         self.paths = 0
         self.exits = {"return": 0, "raise": 0}
 
@@ -214,7 +218,8 @@ class Engine(CoreMixin, ExprMixin, CallMixin, LibMixin, StmtMixin, ReMixin):
         for name, expr in con.ensures.items():
             self.cur_clause = name
             g, sk = self.goal_term(expr, self.post_env(o.st), o.st, old=self.entry_state, result=val)
-            self.oblige(o.st, g, "%s#post.%s" % (self.short, name), "ensures", self.curline, expr, sk)
+            site = ("ret%d" % o.site) if o.site is not None else "end"
+            self.oblige(o.st, g, "%s#post.%s@%s" % (self.short, name, site), "ensures", self.curline, expr, sk)
         self.check_frame(o.st, "post")
 
     def apply_ghost_update(self, updates, st, val=None):
